@@ -460,32 +460,44 @@ class Walker:
         self.fail(st, "statement shape not accepted in a constructor that refuses schedules")
 
     def match(self, p: GPath, st: ast.Match):
-        """`match` on literals / enum members / None == if/elif on `==` / `is`."""
-        def test_of(pat):
-            if isinstance(pat, ast.MatchValue):
-                return ast.Compare(left=st.subject, ops=[ast.Eq()], comparators=[pat.value])
-            if isinstance(pat, ast.MatchSingleton):
-                return ast.Compare(left=st.subject, ops=[ast.Is()], comparators=[ast.Constant(value=pat.value)])
-            if isinstance(pat, ast.MatchOr):
-                ts = [test_of(x) for x in pat.patterns]
-                return None if any(t is None or t is True for t in ts) else ast.BoolOp(op=ast.Or(), values=ts)
-            if isinstance(pat, ast.MatchAs) and pat.pattern is None and pat.name is None:
-                return True
-            return None
+        chain = match_as_if(st)
+        if chain is None:
+            self.fail(st, "match statement with patterns other than literals")
+        return self.block([p], chain)
 
-        chain = []
-        for c in st.cases:
-            t = test_of(c.pattern)
-            if t is None or c.guard is not None:
-                self.fail(st, "match statement with patterns other than literals")
-            chain.append((t, c.body))
-        orelse: list = []
-        for t, body in reversed(chain):
-            if t is True:
-                orelse = body
-            else:
-                orelse = [ast.fix_missing_locations(ast.copy_location(ast.If(test=t, body=body, orelse=orelse), st))]
-        return self.block([p], orelse)
+
+def match_as_if(st: ast.Match):
+    """`match` on literals / enum members / None (| alternatives, `_` last) == if/elif on `==` / `is`: the equivalent
+    statement list, or None for any other pattern (captures, guards, sequences, classes)."""
+    def test_of(pat):
+        if isinstance(pat, ast.MatchValue):
+            return ast.Compare(left=copy.deepcopy(st.subject), ops=[ast.Eq()], comparators=[pat.value])
+        if isinstance(pat, ast.MatchSingleton):
+            return ast.Compare(left=copy.deepcopy(st.subject), ops=[ast.Is()], comparators=[ast.Constant(value=pat.value)])
+        if isinstance(pat, ast.MatchOr):
+            ts = [test_of(x) for x in pat.patterns]
+            return None if any(t is None or t is True for t in ts) else ast.BoolOp(op=ast.Or(), values=ts)
+        if isinstance(pat, ast.MatchAs) and pat.pattern is None and pat.name is None:
+            return True
+        return None
+
+    if not isinstance(st.subject, (ast.Name, ast.Attribute)):
+        return None                                   # the subject would be evaluated once per arm
+    chain = []
+    for c in st.cases:
+        t = test_of(c.pattern)
+        if t is None or c.guard is not None:
+            return None
+        chain.append((t, c.body))
+    if any(t is True for t, _ in chain[:-1]):
+        return None
+    orelse: list = []
+    for t, body in reversed(chain):
+        if t is True:
+            orelse = body
+        else:
+            orelse = [ast.fix_missing_locations(ast.copy_location(ast.If(test=t, body=body, orelse=orelse), st))]
+    return orelse
 
 
 # ------------------------------------------------------------------------------------------ the table
